@@ -107,3 +107,63 @@ func H_C18() {
 }
 
 var _ = register("H_C18", H_C18)
+
+// H_C18_loaded: a log written with a link key, rebuilt with the same codec through each loader and appended to:
+// the entries the rebuilt log writes hide their links like those of the original.
+func H_C18_loaded() {
+	ids, _ := realIdentities("userA")
+	api := newMemAPI()
+	base, err := cbor.IO(&entry.Entry{}, &entry.LamportClock{})
+	vx.Assert("C18", err == nil, "the codec is available")
+	kw, _ := enc.NewSecretbox(linkKeyBytes(7))
+	ioW := base.ApplyOptions(&cbor.Options{LinkKey: kw})
+	L := newLogOpt(api, ids[0], &ipfslog.LogOptions{ID: "X", IO: ioW})
+	n := 1 + vx.Choice("n", vx.Param("MAXN", 2))
+	for i := 0; i < n; i++ {
+		_, err := L.Append(ctx, []byte{'a', byte('0' + i)}, &ipfslog.AppendOptions{PointerCount: 2})
+		vx.Assert("C18", err == nil, "appending with a link key succeeds")
+	}
+	loader := vx.Choice("loader", 4)
+	vx.Sig("loader=" + loaderNames[loader])
+	lo := &ipfslog.LogOptions{ID: "X", IO: ioW}
+	var N *ipfslog.IPFSLog
+	switch loader {
+	case ldManifest:
+		m, err := L.ToMultihash(ctx)
+		vx.Assert("C18", err == nil, "publishing succeeds")
+		N, err = ipfslog.NewFromMultihash(ctx, api, ids[0], m, lo, &ipfslog.FetchOptions{})
+		vx.Assert("C18", err == nil && N != nil, "loading with the same key succeeds")
+	case ldJSON:
+		N, err = ipfslog.NewFromJSON(ctx, api, ids[0], L.ToJSONLog(), lo, &entry.FetchOptions{})
+		vx.Assert("C18", err == nil && N != nil, "loading with the same key succeeds")
+	case ldEntries:
+		N, err = ipfslog.NewFromEntry(ctx, api, ids[0], L.Heads().Slice(), lo, &entry.FetchOptions{})
+		vx.Assert("C18", err == nil && N != nil, "loading with the same key succeeds")
+	default:
+		N, err = ipfslog.NewFromEntryHash(ctx, api, ids[0], L.Heads().Slice()[0].GetHash(), lo, &ipfslog.FetchOptions{})
+		vx.Assert("C18", err == nil && N != nil, "loading with the same key succeeds")
+	}
+	if N == nil {
+		return
+	}
+	vx.Assert("C18", N.Len() == n, "a reader with the same key recovers the whole log")
+	e, err := N.Append(ctx, []byte("after-load"), &ipfslog.AppendOptions{PointerCount: 2})
+	vx.Assert("C18", err == nil && e != nil, "appending to the loaded log succeeds")
+	if err != nil {
+		return
+	}
+	vx.Assert("C18", len(e.GetNext()) > 0, "the appended entry has predecessors")
+	nd, err := api.Dag().Get(ctx, e.GetHash())
+	vx.Assert("C18", err == nil && nd != nil, "the entry block is in the store")
+	if err != nil {
+		return
+	}
+	vx.Assert("C18", len(nd.Links()) == 0, "the block written by a loaded log has no traversable links")
+	raw := nd.RawData()
+	for _, c := range append(append([]cid.Cid{}, e.GetNext()...), e.GetRefs()...) {
+		vx.Assert("C18", !bytes.Contains(raw, c.Bytes()) && !bytes.Contains(raw, []byte(c.String())), "the block written by a loaded log does not contain a predecessor/reference identifier")
+	}
+	vx.Cover("loaded-log-appended")
+}
+
+var _ = register("H_C18_loaded", H_C18_loaded)
